@@ -134,9 +134,9 @@ def _case(rng: Rng, big):
 
 
 def gen_cases(rng: Rng, tier):
-    n = dict(quick=160, thorough=2500)[tier]
+    n = dict(quick=160, thorough=1200)[tier]
     for k in range(n):
-        yield _case(rng, big=(tier == "thorough" and k % 3 == 0))
+        yield _case(rng, big=(tier == "thorough" and k % 4 == 0))
     # scripted update step (the REAL fit loop driven by a fake `_update_components`): every branch of the
     # controller for every small max_iteration, both settings of adapt
     maxs = range(0, 5) if tier == "quick" else range(0, 9)
